@@ -116,8 +116,15 @@ def handlers(ctx, rule='A9e'):
                        'removed nodes, or records infeasibility', detail)
     # marker transfer: the edges of the error become added edges (so that `feasible` sees them)
     fn = ctx.fn(f'{CHOICES}:get_mod_apply_selection_choice')
-    txt = FnText(ctx, fn)
-    ok = 'added_edges |= e.edges' in txt and 'removed_nodes |= e.removed_nodes' in txt
+    ok = False
+    for f_ in unit_functions(ctx.prog, fn):
+        for t_ in [x for x in ast.walk(f_.node) if isinstance(x, ast.Try)]:
+            for h in t_.handlers:
+                if 'IncompatibilityError' in handler_type_names(h) and h.name:
+                    body = ' '.join(norm(x) for x in h.body)
+                    if f'{h.name}.edges' in body and f'{h.name}.removed_nodes' in body and \
+                            ('|=' in body or '.update(' in body):
+                        ok = True
     ctx.ob(rule, fkey(fn, rule, 'conflict-becomes-marker-edges'), ok, fn.where,
            'on a conflict while applying a choice the conflicting edges are *added* to the derived graph (they '
            'make it infeasible) and the nodes removed so far stay removed', '')
@@ -129,35 +136,87 @@ def handlers(ctx, rule='A9e'):
     return n
 
 
+def _membership(atom, truth, lhs, container):
+    """fact `lhs in container` (whichever way the test is written)"""
+    if not (isinstance(atom, ast.Compare) and len(atom.ops) == 1 and norm(atom.left) == lhs and
+            norm(atom.comparators[0]) == container):
+        return False
+    return (isinstance(atom.ops[0], ast.In) and truth is True) or (isinstance(atom.ops[0], ast.NotIn) and truth is False)
+
+
+def _dominated_by(cfg, node, facts):
+    """Is node unreachable from the entry once the edges implying ANY of the facts are removed, for EACH fact (i.e.
+    every fact holds whenever node executes)?  `A and B` true-edges imply both conjuncts."""
+    for fact in facts:
+        edges_ = set(cfg.edges_implying(fact))
+        if node.id in cfg.reachable([cfg.entry], blocked_edges=edges_, labels_excluded=('exc',)):
+            return False
+    return True
+
+
 def removal_shape(ctx, rule='A5r'):
     fn = ctx.fn(f'{INCOMP}:get_mod_nodes_remove_incompatibilities')
     cfg = build_cfg(fn)
-    txt = FnText(ctx, fn)
-    both = [n for n in cfg.nodes if n.kind == 'test' and isinstance(n.ast, ast.BoolOp) and
-            isinstance(n.ast.op, ast.And) and norm(n.ast).count('in confirmed_nodes') == 2]
-    ok = bool(both) and any('infeasible' in norm(m.ast) and 'add' in norm(m.ast) for m, lab in both[0].succ
-                            if lab == 'T' and m.ast is not None)
-    ctx.ob(rule, fkey(fn, rule, 'both-confirmed-is-conflict'), ok, fn.where,
-           'an incompatibility edge whose two ends are both confirmed is recorded as a conflict', '')
+    conf = [s_ for s_ in walk_fn(fn) if isinstance(s_, ast.Assign) and isinstance(s_.value, ast.Call) and
+            call_name(s_.value) == 'traverse_until_choice_nodes' and isinstance(s_.targets[0], ast.Tuple)]
+    if not conf:
+        raise AnalysisError('get_mod_nodes_remove_incompatibilities: confirmed set not found')
+    confirmed = norm(conf[0].targets[0].elts[0])
+    loops = [n for n in cfg.nodes if n.kind == 'for' and isinstance(n.ast.target, ast.Name)]
+    edge_vars = {n.ast.target.id for n in loops}
     raises = [n for n in cfg.nodes if n.kind == 'stmt' and isinstance(n.ast, ast.Raise) and
               'IncompatibilityError' in norm(n.ast)]
+    # (1) both ends confirmed -> recorded as a conflict that raises
+    adds = [n for n in cfg.nodes if n.kind == 'stmt' and isinstance(n.ast, ast.Expr) and
+            isinstance(n.ast.value, ast.Call) and call_name(n.ast.value) == 'add' and n.ast.value.args and
+            isinstance(n.ast.value.args[0], ast.Name) and n.ast.value.args[0].id in edge_vars]
+    conflict_sets = set()
+    ok = False
+    for a in adds:
+        ev = a.ast.value.args[0].id
+        if _dominated_by(cfg, a, [lambda at, t, ev=ev: _membership(at, t, f'{ev}[0]', confirmed),
+                                  lambda at, t, ev=ev: _membership(at, t, f'{ev}[1]', confirmed)]):
+            ok = True
+            conflict_sets.add(norm(a.ast.value.func.value))
+    ctx.ob(rule, fkey(fn, rule, 'both-confirmed-is-conflict'), ok, fn.where,
+           'an incompatibility edge whose two ends are both confirmed is recorded as a conflict', '')
     ok = False
     for r in raises:
         for p, lab in r.pred:
             if p.kind == 'test' and lab == 'T' and intcmp.emptiness(
-                    p.ast, lambda x: isinstance(x, ast.Name) and 'infeasible' in x.id) == 'nonempty':
+                    p.ast, lambda x: isinstance(x, ast.Name) and x.id in conflict_sets) == 'nonempty':
+                ok = True
+            if p.kind == 'test' and lab == 'F' and intcmp.emptiness(
+                    p.ast, lambda x: isinstance(x, ast.Name) and x.id in conflict_sets) == 'empty':
                 ok = True
     ctx.ob(rule, fkey(fn, rule, 'conflict-raises'), ok, fn.where,
            'any recorded conflict raises IncompatibilityError (carrying the edges and the nodes removed so far)',
            f'{len(raises)} raise(s)')
-    one = [n for n in cfg.nodes if n.kind == 'test' and norm(n.ast) == 'edge[0] in confirmed_nodes']
-    ok = bool(one) and any('removed_nodes.add(edge[1])' in norm(m.ast) or 'confirmed_incompatibility_edges.add' in
-                           norm(m.ast) for m, lab in one[0].succ if lab == 'T' and m.ast is not None) and \
-        'removed_nodes.add(edge[1])' in txt
+    # (2) confirmed source -> the target end is put into the removal set
+    rem = [n for n in cfg.nodes if n.kind == 'stmt' and isinstance(n.ast, ast.Expr) and
+           isinstance(n.ast.value, ast.Call) and call_name(n.ast.value) == 'add' and n.ast.value.args and
+           isinstance(n.ast.value.args[0], ast.Subscript) and norm(n.ast.value.args[0].slice) == '1' and
+           norm(n.ast.value.args[0].value) in edge_vars]
+    ok = any(_dominated_by(cfg, a, [lambda at, t, a=a: _membership(at, t, norm(a.ast.value.args[0].value) + '[0]',
+                                                                    confirmed)]) for a in rem)
     ctx.ob(rule, fkey(fn, rule, 'confirmed-source-removes-target'), ok, fn.where,
            'when the source end of an incompatibility edge is confirmed the target end is removed (constraints '
            'are stored in both directions, so this covers either end)', '')
-    ok = 'len(deriving_nodes & confirmed_nodes) > 0' in txt and txt.count('raise IncompatibilityError') >= 2
+    # (3) a confirmed node among the nodes that necessarily derive the target -> conflict
+    der = [s_ for s_ in walk_fn(fn) if isinstance(s_, ast.Assign) and isinstance(s_.value, ast.Call) and
+           call_name(s_.value) == 'get_incompatibility_deriving_nodes']
+    deriving = norm(der[0].targets[0]) if der else None
+
+    def overlap(at, t):
+        if deriving is None or deriving not in norm(at) or confirmed not in norm(at):
+            return False
+        if isinstance(at, ast.Call) and call_name(at) == 'isdisjoint':
+            return t is False
+        inter = lambda e: isinstance(e, ast.BinOp) and isinstance(e.op, ast.BitAnd) and \
+            {norm(e.left), norm(e.right)} == {deriving, confirmed}
+        r_ = intcmp.emptiness(at, inter)
+        return (r_ == 'nonempty' and t is True) or (r_ == 'empty' and t is False)
+    ok = any(_dominated_by(cfg, r, [overlap]) for r in raises)
     ctx.ob(rule, fkey(fn, rule, 'confirmed-deriver-is-conflict'), ok, fn.where,
            'if a node that necessarily derives the incompatible node is itself confirmed, the graph is in '
            'conflict (raise)', '')
@@ -167,36 +226,54 @@ def removal_shape(ctx, rule='A5r'):
     ctx.ob(rule, fkey(add, rule, 'stored-in-both-directions'), ok, add.where,
            'an incompatibility constraint over a node set is stored as INCOMPATIBILITY edges for every ordered '
            'pair (both directions)', t2[:120])
-    # a choice without options: marker edges
+    # a choice without options: marker edges (looked for in the function and the helpers extracted from it)
     sel = ctx.fn(f'{CHOICES}:get_mod_apply_selection_choice')
-    cfgs = build_cfg(sel)
-    t = [n for n in cfgs.nodes if n.kind == 'test' and intcmp.emptiness(
-        n.ast, lambda x: isinstance(x, ast.Name) and x.id == 'option_nodes') == 'empty']
     ok = False
-    if t:
-        stack = [m for m, lab in t[0].succ if lab == 'T']
-        seen = set()
-        blk = ''
-        while stack:
-            n = stack.pop()
-            if n.id in seen or n.kind in ('exit', 'raise'):
-                continue
-            seen.add(n.id)
-            if n.ast is not None:
-                blk += norm(n.ast) + ' '
-            if not (n.kind == 'stmt' and isinstance(n.ast, ast.Return)):
-                stack += [m for m, _ in n.succ]
-        ok = 'EdgeType.INCOMPATIBILITY' in blk and 'originating_node' in blk and 'predecessors(choice_node)' in blk
+    for f_ in unit_functions(ctx.prog, sel):
+        cf = build_cfg(f_)
+        tests = [n for n in cf.nodes if n.kind == 'test' and intcmp.emptiness(
+            n.ast, lambda x: isinstance(x, ast.Name) and 'option' in x.id) in ('empty', 'nonempty')]
+        for t in tests:
+            lab_empty = 'T' if intcmp.emptiness(t.ast, lambda x: isinstance(x, ast.Name) and 'option' in x.id) == 'empty' else 'F'
+            stack = [m for m, lab in t.succ if lab == lab_empty]
+            seen = set()
+            blk = ''
+            while stack:
+                n = stack.pop()
+                if n.id in seen or n.kind in ('exit', 'raise'):
+                    continue
+                seen.add(n.id)
+                if n.ast is not None:
+                    blk += norm(n.ast) + ' '
+                    # follow a returned helper call one level
+                    for c in ast.walk(n.ast):
+                        if isinstance(c, ast.Call) and isinstance(c.func, ast.Name) and c.func.id.startswith('_'):
+                            h = next((u for u in unit_functions(ctx.prog, sel) if u.name == c.func.id), None)
+                            if h is not None:
+                                blk += ' '.join(norm(x) for x in h.body) + ' '
+                if not (n.kind == 'stmt' and isinstance(n.ast, ast.Return)):
+                    stack += [m for m, _ in n.succ]
+            if 'EdgeType.INCOMPATIBILITY' in blk and 'predecessors(' in blk:
+                ok = True
     ctx.ob(rule, fkey(sel, rule, 'no-option-marker'), ok, sel.where,
            'applying a choice that has no option left adds an INCOMPATIBILITY marker edge to every originating '
            'node (the branch becomes infeasible instead of silently losing the choice)', '')
-    conf = ctx.fn(f'{INCOMP}:get_confirmed_incompatibility_edges')
-    tests = [n for n in build_cfg(conf).nodes if n.kind == 'test' and 'confirmed_nodes' in norm(n.ast)]
-    ok = bool(tests) and isinstance(tests[0].ast, ast.BoolOp) and isinstance(tests[0].ast.op, ast.Or) and \
-        norm(tests[0].ast).count('in confirmed_nodes') == 2
-    ctx.ob(rule, fkey(conf, rule, 'edge-at-confirmed-node'), ok, conf.where,
+    conf_fn = ctx.fn(f'{INCOMP}:get_confirmed_incompatibility_edges')
+    ok = False
+    detail = ''
+    for f_ in unit_functions(ctx.prog, conf_fn):
+        for b in ast.walk(f_.node):
+            if isinstance(b, ast.BoolOp) and isinstance(b.op, ast.Or) and len(b.values) == 2 and \
+                    all(isinstance(v, ast.Compare) and len(v.ops) == 1 and isinstance(v.ops[0], ast.In)
+                        for v in b.values):
+                l0, l1 = norm(b.values[0].left), norm(b.values[1].left)
+                if norm(b.values[0].comparators[0]) == norm(b.values[1].comparators[0]) and \
+                        {l0[-3:], l1[-3:]} == {'[0]', '[1]'} and l0[:-3] == l1[:-3]:
+                    ok = True
+                    detail = short(b)
+    ctx.ob(rule, fkey(conf_fn, rule, 'edge-at-confirmed-node'), ok, conf_fn.where,
            'an incompatibility edge counts as confirmed as soon as one of its ends is confirmed (the other end '
-           'should have been removed; marker edges start at a start node)', short(tests[0].ast) if tests else '')
+           'should have been removed; marker edges start at a start node)', detail)
 
 
 def confirmed_never_removed(ctx, rule='A6c'):
@@ -300,6 +377,15 @@ def infeasibility_monotone(ctx, rule='A5r'):
         return True
     through = [n for n in guards.nodes_with(cfg, keeps) if n.kind == 'stmt' and
                isinstance(n.ast, (ast.AugAssign, ast.Assign, ast.Expr)) and added in norm(n.ast)]
+    # ... or a helper extracted from this function does it on the set it is handed
+    for h in unit_functions(ctx.prog, fn)[1:]:
+        hcalls = [c for c in walk_fn(h) if isinstance(c, ast.Call) and call_name(c) == 'get_confirmed_incompatibility_edges']
+        if not hcalls:
+            continue
+        through += [n for n in cfg.nodes if n.ast is not None and n.kind in ('stmt', 'test') and
+                    any(isinstance(c, ast.Call) and call_name(c) == h.name and
+                        any(isinstance(a, ast.Name) and a.id == added for a in list(c.args) + [k.value for k in c.keywords])
+                        for c in ast.walk(n.ast))]
     guards.check_passes(ctx, rule, fn, [full], through, 'infeasibility-marking-kept',
                         'the modification returned for an applied selection re-adds the confirmed incompatibility edges '
                         'of the incoming graph (an infeasible graph never becomes feasible by taking further choices)')
